@@ -3,7 +3,7 @@ from vlib import common as C
 from vlib import langsuite as L
 
 
-def run_one(prop, suite, tier, rule, assumptions, extra_thorough=(), gen=0, extra_always=(), twin_suites=()):
+def run_one(prop, suite, tier, rule, assumptions, extra_thorough=(), gen=0, extra_always=(), twin_suites=(), claim=(), extra_stage=None):
     """extra_thorough: further suites run in the thorough tier; gen: number of generated programs whose
     result-level disagreements attributed to `prop` are reported too (thorough tier; 250 in the quick tier)."""
     from vlib import gensuite as G
@@ -41,6 +41,18 @@ def run_one(prop, suite, tier, rule, assumptions, extra_thorough=(), gen=0, extr
             if cid.endswith("#const") and cid[:-6] not in broken:
                 chk.violation({"kind": "const-twin-diverges", "suite": s, "what": m.get("what", "")[:200],
                                "program": m.get("program", "")}, m)
+    # cases of another suite that also decide this property (claim = ((suite, (id substrings ...)), ...))
+    for s, pats in claim:
+        r = L.run_suite(chk, s, tier)
+        n_claimed = 0
+        for m in r["mismatches"]:
+            if any(p in str(m.get("id", "")) for p in pats):
+                n_claimed += 1
+                chk.violation({"kind": "claimed:" + m["kind"], "suite": s, "what": m.get("what", "")[:200],
+                               "program": m.get("program", "")}, m)
+        chk.cov.setdefault("claimed_cases", {})[s] = {"patterns": list(pats), "cases_run": r["cases"]}
+    if extra_stage:
+        extra_stage(chk, tier)
     if twin_suites:
         chk.cov["const_twin_suites"] = {"suites": list(twin_suites), "cases_incl_twins": n_twins}
     L.fill_coverage(chk, results, n, rule)
